@@ -76,7 +76,7 @@ impl Minimums {
 impl<K, V> RecursiveContext<K, V>
 where
     K: Hash + Eq + Debug + Clone,
-    V: Debug + Clone,
+    V: Debug + Clone + PartialEq,
 {
     pub fn new(overflow_depth: usize, max_size: usize, cache: Option<Cache<K, V>>) -> Self {
         RecursiveContext {
@@ -262,6 +262,13 @@ where
                 std::mem::replace(&mut self.search_graph[dfn].solution, current_answer);
 
             if solver_stuff.reached_fixed_point(&old_answer, &self.search_graph[dfn].solution) {
+                if old_answer != self.search_graph[dfn].solution {
+                    // We stopped before reaching a true fixed point (the answer
+                    // became ambiguous). The nodes below us were computed from
+                    // the previous provisional answer, so they must not
+                    // survive to be moved into the cache.
+                    self.search_graph.rollback_to(dfn + 1);
+                }
                 return *minimums;
             }
 
